@@ -1,5 +1,5 @@
 (** C22 — executable model of the mempool admission pipeline, in the order the
-    Go code runs it (system/mempool: eventTx, checkTxs, checkTx, checkLevelFee,
+    Go code runs it (system/mempool: eventTx, checkTxs, isGroupHead, checkTx, checkLevelFee,
     checkSign, checkTxRemote, evmTxNonceCheck, txCache.Push; types/tx.go: Check,
     CheckWithFork, check, GetRealFee, isExpire).  The model follows the code as
     it is.  Every elementary fact about a transaction is an input. *)
@@ -25,7 +25,8 @@ Record txf := mkTx {
   t_chain_ok : bool;   (* ChainID equals the configured chain id *)
   t_eth : bool;        (* signature type is an eth sign id *)
   t_nonce : Z;
-  t_exec_ok : bool     (* the executor module's CheckTx accepts *)
+  t_exec_ok : bool;    (* the executor module's CheckTx accepts *)
+  t_sigid : N          (* identity of the Signature message (sign type, public key, signature bytes); 0 = none *)
 }.
 
 (** shape of the submitted transaction, as Transaction.GetTxGroup sees it *)
@@ -42,6 +43,21 @@ Record sub := mkSub {
 }.
 
 Inductive submission := SNil | STx (s : sub).
+
+(** Relations between the facts of a wrapper [o] and of the group's first
+    transaction [h] that hold by construction of the real objects: Hash()
+    covers Nonce and Fee; From() and the sign type are functions of the
+    Signature message. *)
+Definition wrap_consistent (o h : txf) : bool :=
+  (negb (N.eqb (t_id o) (t_id h)) || ((t_nonce o =? t_nonce h) && (t_fee o =? t_fee h)))
+  && (negb (N.eqb (t_sigid o) (t_sigid h))
+      || (N.eqb (t_sender o) (t_sender h) && Bool.eqb (t_eth o) (t_eth h))).
+
+Definition facts_consistent (s : sub) : bool :=
+  match s_shape s with
+  | Group (h :: _) _ => wrap_consistent (s_outer s) h
+  | _ => true
+  end.
 
 Record config := mkCfg {
   c_synced : bool;
@@ -193,6 +209,10 @@ Definition check_member (c : config) (p : pool) (grp : bool) (t : txf) : N :=
   else if expired_chk c grp t then R_EXPIRED
   else R_OK.
 
+(** mempool isGroupHead: the wrapper is the group's first transaction, same hash and same signature *)
+Definition is_group_head (o h : txf) : bool :=
+  N.eqb (t_id o) (t_id h) && N.eqb (t_sigid o) (t_sigid h).
+
 (** Mempool.checkTxs after the nil test *)
 Definition check_txs (c : config) (p : pool) (s : sub) : N :=
   if s_forward s then R_OK
@@ -203,7 +223,12 @@ Definition check_txs (c : config) (p : pool) (s : sub) : N :=
       let e2 := if c_level c then check_level c p s else R_OK in
       if negb (N.eqb e2 R_OK) then e2
       else match s_shape s with
-           | Group ms _ => first_err (check_member c p true) ms
+           | Group ms _ =>
+               match ms with
+               | h :: _ => if is_group_head (s_outer s) h then first_err (check_member c p true) ms
+                           else R_MALFORMED
+               | [] => R_MALFORMED   (* not reached: check_group has refused a group of less than two *)
+               end
            | _ => check_member c p false (s_outer s)
            end.
 
